@@ -121,6 +121,9 @@ pub struct Case {
     pub kind: Kind,
     pub op: Op,
     pub salt: u32,
+    /// 0: the typenum alias of `n`; k > 0: the k-th hand-spelled length with leading zero digits (`lens::DENORM`), value `n`
+    #[serde(default)]
+    pub denorm: u8,
 }
 
 fn mixi(i: usize, a: u32, b: u32) -> u32 {
@@ -542,6 +545,13 @@ pub fn exec(case: &Case, acc: &mut Acc) -> Result<(), String> {
             _ => lens_resize!(case.n, N, exec_resize::<String, N>(case, acc)),
         };
     }
+    if case.denorm > 0 {
+        return match case.kind {
+            Kind::U32 => harness::denorm_match!(case.denorm, N, exec_typed::<u32, N>(case, acc)),
+            Kind::Tracked => harness::denorm_match!(case.denorm, N, exec_typed::<Tracked, N>(case, acc)),
+            _ => harness::denorm_match!(case.denorm, N, exec_typed::<Uz, N>(case, acc)),
+        };
+    }
     match case.kind {
         Kind::U32 => lens_wide!(case.n, N, exec_typed::<u32, N>(case, acc)),
         Kind::Str => lens8!(case.n, N, exec_typed::<String, N>(case, acc)),
@@ -595,7 +605,35 @@ fn grid(draws: u32, seed: u64) -> Vec<Case> {
                     x ^= x << 13;
                     x ^= x >> 7;
                     x ^= x << 17;
-                    out.push(Case { n, kind, op, salt: (x >> 20) as u32 & 0xffff });
+                    out.push(Case { n, kind, op, salt: (x >> 20) as u32 & 0xffff, denorm: 0 });
+                }
+            }
+        }
+    }
+    // the same operations on lengths spelled with leading zero digits (their value is what `n` says; the type is another one)
+    for &(k, n) in harness::lens::DENORM {
+        for kind in [Kind::U32, Kind::Tracked, Kind::Uz] {
+            let mut ops = vec![];
+            for f in 0..4 {
+                ops.push(Op::Generate(f));
+                ops.push(Op::Map(f));
+                ops.push(Op::Fold(f));
+                ops.push(Op::MapToUnit(f));
+            }
+            for f in 0..10 {
+                ops.push(Op::Zip(f));
+            }
+            for f in 0..2 {
+                ops.push(Op::Clone(f));
+                ops.push(Op::Clone(f + 2));
+                ops.push(Op::Default(f));
+            }
+            for op in ops {
+                for _ in 0..draws.min(4) {
+                    x ^= x << 13;
+                    x ^= x >> 7;
+                    x ^= x << 17;
+                    out.push(Case { n, kind, op, salt: (x >> 20) as u32 & 0xffff, denorm: k });
                 }
             }
         }
@@ -629,7 +667,7 @@ pub fn main() {
         Report {
             prop: PROP,
             level: "exploration",
-            rule: "case = (operation and receiver/argument form, N in {0..8,12,16,17,33,64,256,1024} (u32 elements additionally 9,15,31,63,65,100,127,129,200,255,257,300,511,513,1000,1023,2048,4096), element kind, seeded element values): generate x4 forms (owned, via &, via &mut, boxed), map x4, zip x10 (nine stack forms + boxed x boxed), fold x4, Clone (stack, boxed), clone_from into an existing array (stack, boxed), Default (stack, default_boxed); element kinds u32, String, drop-tracked, zero-sized tracked, a type without drop glue whose Clone/Default are observable, and a zero-sized type without drop glue whose Clone/Default are observable; map x4 and zip x10 whose output element type is () for every input kind; map x4 into seven output types of other sizes / alignments (narrower, wider, same alignment or not, with and without drop glue) for u32 and String inputs. \
+            rule: "case = (operation and receiver/argument form, N in {0..8,12,16,17,33,64,256,1024} (u32 elements additionally 9,15,31,63,65,100,127,129,200,255,257,300,511,513,1000,1023,2048,4096), element kind, seeded element values): generate x4 forms (owned, via &, via &mut, boxed), map x4, zip x10 (nine stack forms + boxed x boxed), fold x4, Clone (stack, boxed), clone_from into an existing array (stack, boxed), Default (stack, default_boxed); element kinds u32, String, drop-tracked, zero-sized tracked, a type without drop glue whose Clone/Default are observable, and a zero-sized type without drop glue whose Clone/Default are observable; map x4 and zip x10 whose output element type is () for every input kind; map x4 into seven output types of other sizes / alignments (narrower, wider, same alignment or not, with and without drop glue) for u32 and String inputs; all of generate / map / zip / fold / Clone / Default again on seven lengths spelled by hand with leading zero digits (0, 00, 01, 010, 0011, 0101, 01000 - legal ArrayLength types no typenum alias produces) for u32, drop-tracked and zero-sized elements. \
                    Oracle: the stateful, non-commutative closure's call log must be exactly calls 0..N-1 with arguments (i) / (a[i]) / (a[i], b[i]) / (acc, a[i]) in ascending order, and the result must equal the same computation on slices; Clone/Default order is observed through identities and call logs. \
                    non-trivial = N >= 2; distinct = distinct (form, N, kind, values)",
             exhaustive: false,
